@@ -1,4 +1,6 @@
 import DaeVerif.C06.Proofs
+import DaeVerif.C06.FamilyProofs
+import DaeVerif.C06.FlightProofs
 /-!
 # C06 — property theorems
 
@@ -369,5 +371,123 @@ def heldFlow : Flow := { pkt := { buf := [0xc0, 1, 2], data := [[], [0xc0, 1, 2]
 example : heldFlow.Inv ∧ (heldFlow.step [] [0x40, 9, 9, 9, 9, 9, 9]).2 = [[0xc0, 1, 2], [0x40, 9, 9, 9, 9, 9, 9]] ∧
     (heldFlow.step [] [0x40, 9, 9, 9, 9, 9, 9]).1.withheld = [] := by
   refine ⟨⟨rfl, fun h => by cases h⟩, by decide, by decide⟩
+
+/-! ## QUIC flights over several packets and datagrams: the pieces `quic_datagram_found_partial` lacks -/
+
+/-- **An early answer is the final answer.** While CRYPTO data is still missing — any blocks, with
+gaps, as long as each is a slice of the client's stream — a name the walk finds is the name the walk
+finds on the complete stream: for a ClientHello, the documented answer.  So a flow released before
+the last datagram arrived is released with the right name. -/
+theorem quic_early_answer_is_final (ch : ClientHello) (hwf : ch.WF) (blocks : List Block)
+    (hw : ∀ b ∈ blocks, Within (handshake ch) b) (d : Bytes)
+    (h : extractSni (newLinear blocks) = .ok d) : specResult ch = .ok d := by
+  rw [← extractSni_complete ch hwf]
+  exact extractSni_partial_stable (handshake ch) blocks hw d h
+
+/-- the hypothesis is satisfiable (here by the complete stream; with the three padding bytes 83..85 of the
+example hello still missing the driver answers the same name: `qext` ops of the tie) -/
+example : ∃ blocks d, blocks ≠ [] ∧ extractSni (newLinear blocks) = .ok d :=
+  ⟨[⟨0, handshake exampleHello⟩], str "Example.org", by simp,
+    by rw [extractSni_complete exampleHello exampleHello_wf]; decide⟩
+
+/-- **"Complete" means complete.** `quicClientHelloComplete` never calls a partial stream complete:
+when it answers true for blocks that came out of the reassembly of slices of the client's stream, the
+blocks are exactly the whole handshake message — so "not found" with `needMore = false` is only ever
+said of the complete ClientHello, and a flow is never released as name-less too early. -/
+theorem quic_complete_means_complete (ch : ClientHello) (cr : List Block)
+    (hw : ∀ b ∈ cr, Within (handshake ch) b) (hsep : Separated cr) (hc : helloComplete cr = true) :
+    cr = [⟨0, handshake ch⟩] := helloComplete_full ch cr hw hsep hc
+
+example : helloComplete [⟨0, (handshake exampleHello).take 70⟩] = false ∧ helloComplete [⟨0, handshake exampleHello⟩] = true := by
+  decide
+
+/-- **Coalesced packets.** For a datagram made of any number of well-formed Initial packets that AEAD
+answers with their plaintext at the place where they lie in the session buffer, the block loop of
+`SniffQuic` walks all of them — header walk, oracle, `ReassembleCryptos` each — and ends with the
+CRYPTO blocks of `feedPayloads` (to which `quic_flight_found` applies), without an error. -/
+theorem quic_datagram_packets_loop (oracle : List Sealed) (total : Nat) (ps : List InitialPkt) (hne : ps ≠ [])
+    (hwf : ∀ p ∈ ps, p.WF) (cr : List Block) (isQ : Bool)
+    (htot : (dgWire ps).length ≤ total) (horc : OracleFor oracle (total - (dgWire ps).length) ps) :
+    ∃ cr', feedPayloads cr (ps.map InitialPkt.plain) = .ok cr' ∧
+      quicLoop oracle total ((dgWire ps).length + 1) cr (dgWire ps) isQ = (cr', none) :=
+  quicLoop_packets oracle total ps hne hwf cr isQ _ (by have := dgWire_length_ge ps; omega) htot horc
+
+example : (⟨⟨0xc3, 0, 0, 0, 1, [1, 2, 3, 4, 5, 6, 7, 8], [], [9, 9], 0, 1⟩, List.replicate 24 0, [⟨2, .crypto 0 [1, 0, 0, 2] 0 0⟩], 3⟩ : InitialPkt).WF := by
+  refine ⟨⟨by decide, by decide, ⟨by decide, by decide⟩, ⟨by decide, by decide⟩, by decide⟩, ?_⟩
+  intro it hit
+  simp only [List.mem_singleton] at hit
+  subst hit
+  exact ⟨⟨by decide, by decide⟩, ⟨by decide, by decide⟩⟩
+
+/-! ## A flow family through `handlePkt`: several QUIC connections on one 4-tuple, failing dials -/
+
+/-- Every datagram that is shaped like a QUIC Initial carries a destination connection id the
+session pool can key a session by (1..20 bytes — what RFC 9000 lets a client send is 8..20). -/
+def CacheableDcids (xs : List Dg) : Prop := ∀ x ∈ xs, isLikelyQuic x.data = true → dcidKey x.data ≠ []
+
+/-- The full claim: for EVERY history of one flow family, connection by connection, what was handed
+on followed by what is still held is what came in.  It does NOT hold of the code as it is: a session
+whose Initial has a DCID of length 0 (or more than 20) is keyed by the bare address pair, is not a
+member of the flow family, and `TakeFlowFamilyBufferedPackets` never releases what it holds
+(finding `c06-udp-withheld-stranded-uncacheable-dcid`, directed scenario in the harness). -/
+def udp_family_per_connection_full : Prop :=
+  ∀ (xs : List Dg) (k : Bytes),
+    onKey k (released (Fam.run {} xs).1 ++ (Fam.run {} xs).2.held) = onKey k (xs.map Dg.data)
+
+/-- **Datagram fidelity and order per connection, every interleaving, with faults.** Any number of
+QUIC connections (sessions keyed by DCID) opening on one 4-tuple, their datagrams interleaved in any
+way with each other and with datagrams that are not QUIC Initials, retransmissions, undecryptable
+packets, whatever the sniffer answers, whichever dials fail, with the decrypt-failure and no-SNI
+counters, the bypass window, the negative DCID cache and the reset of a domain-less endpoint by
+another connection's Initial all in play: for every connection key `k`, the datagrams of `k` that
+`handlePkt` handed on (written to the endpoint, or given to a dial that failed), in that order,
+followed by the ones its session still holds, are exactly the datagrams of `k` that came in, in
+ingress order.  Nothing is duplicated, altered, overtaken within its connection, or silently lost.
+`_partial`: for histories whose Initial-shaped datagrams carry a cacheable DCID (see `_full`). -/
+theorem udp_family_per_connection_partial (xs : List Dg) (hc : CacheableDcids xs) (k : Bytes) :
+    onKey k (released (Fam.run {} xs).1 ++ (Fam.run {} xs).2.held) = onKey k (xs.map Dg.data) := by
+  obtain ⟨hI, h⟩ := run_spec xs {} inv_init hc
+  rw [onKey_append, Fam.held, onKey_held _ hI.1.keyed, h k]
+  rfl
+
+/-- **Nothing is held behind an endpoint.** In every reachable state, once the flow has its
+`UdpEndpoint` (from then on datagrams are written directly and no sniff runs), no session holds a
+datagram — which is why the paths that tear sessions down (`RemoveFlowFamilySessions`) lose nothing. -/
+theorem udp_family_nothing_held_behind_endpoint_partial (xs : List Dg) (hc : CacheableDcids xs)
+    (h : (Fam.run {} xs).2.ue.isSome = true) : (Fam.run {} xs).2.held = [] :=
+  held_of_allEmpty _ ((run_spec xs {} inv_init hc).1.2 h)
+
+/-- **A release is total.** Whenever a `handlePkt` call hands anything on — the current datagram
+alone, or with what a session had buffered — it hands on everything every session of the family
+holds: after such a call nothing is held.  So a datagram stays withheld only while every later
+datagram of the family was itself answered "need more". -/
+theorem udp_family_release_is_total_partial (xs : List Dg) (x : Dg) (hc : CacheableDcids (xs ++ [x]))
+    (h : ((Fam.run {} xs).2.step x).2.written ++ ((Fam.run {} xs).2.step x).2.dropped ≠ []) :
+    ((Fam.run {} xs).2.step x).1.held = [] :=
+  held_of_allEmpty _ ((run_last_step xs x hc).2.2 h)
+
+/-- two connections (DCIDs `09` and `08`), each with an Initial the sniffer asks more for (AEAD answers a
+two-byte CRYPTO stream), then a datagram that is not a QUIC Initial: both are held, then everything is
+written — each connection's datagram once (the order ACROSS connections is that of the session table); with the third step's dial failing, everything is lost together -/
+def exA : Dg := { data := [0xc0, 0, 0, 0, 1, 1, 9, 0, 0, 7, 1, 2, 3, 4, 5, 6, 7], seals := [⟨0, 10, 17, [9], [6, 0, 2, 1, 0]⟩] }
+def exB : Dg := { data := [0xc0, 0, 0, 0, 1, 1, 8, 0, 0, 7, 7, 6, 5, 4, 3, 2, 1], seals := [⟨0, 10, 17, [8], [6, 0, 2, 1, 0]⟩] }
+def exJ : Dg := { data := [0x40, 1, 2, 3, 4, 5, 6] }
+
+example : CacheableDcids [exA, exB, exJ] ∧
+    (Fam.run {} [exA, exB]).2.held = [exB.data, exA.data] ∧ released (Fam.run {} [exA, exB]).1 = [] ∧
+    released (Fam.run {} [exA, exB, exJ]).1 = [exB.data, exA.data, exJ.data] ∧ (Fam.run {} [exA, exB, exJ]).2.held = [] ∧
+    (Fam.run {} [exA, exB, exJ]).2.ue.isSome = true ∧
+    ((Fam.run {} [exA, exB, { exJ with dialFails := true }]).1.map StepOut.dropped) = [[], [], [exB.data, exA.data, exJ.data]] := by
+  refine ⟨?_, by decide, by decide, by decide, by decide, by decide, by decide⟩
+  intro x hx
+  simp only [List.mem_cons, List.not_mem_nil, or_false] at hx
+  rcases hx with rfl | rfl | rfl <;> decide
+
+/-- the `_full` statement fails on the model exactly where the code fails: a withheld Initial with a
+zero-length DCID is not released by the datagram that follows it -/
+def exZ : Dg := { data := [0xc0, 0, 0, 0, 1, 0, 0, 0, 8, 1, 2, 3, 4, 5, 6, 7, 8], seals := [⟨0, 9, 17, [], [6, 0, 2, 1, 0]⟩] }
+
+example : dcidKey exZ.data = [] ∧ released (Fam.run {} [exZ, exJ]).1 = [exJ.data] ∧ (Fam.run {} [exZ, exJ]).2.held = [exZ.data] := by
+  decide
 
 end DaeVerif.C06.Props
